@@ -10,7 +10,7 @@ KINDS = {
     "C08": {"shape"},
     "C09": {"locks", "hang", "crash"},
     "C11": {"search", "scan", "panic", "callback", "foreign", "hang", "crash", "mutated"},
-    "C12": {"ctor", "panic", "search", "scan", "shape", "crash", "hang"},
+    "C12": {"ctor", "panic", "search", "scan", "shape", "crash", "hang", "independence"},
 }
 MISMATCH_OPS = {
     "C01": {"ins", "upd", "del", "get", "snap", "bulk"},
